@@ -77,6 +77,7 @@ def observe(ev):
         for m in LOC.finditer(msg):
             named.append(rel(m.group(1)))
     return {"exit": ev["exit"], "panicked": bool(ev["panicked"] or ev["signal"]), "oneJson": one_json, "named": sorted(set(named)),
+            "keys": sorted(doc.keys()) if one_json else [],
             "written": sorted(rel(proj + w) for w in ev["written"]), "otherChanges": list(ev["deleted"])}
 
 
